@@ -9,6 +9,7 @@ import math
 
 import numpy as np
 
+from vmon import faults
 from vmon import refmodel as R
 from vmon import world
 from vmon.props import c01 as base
@@ -32,7 +33,7 @@ BUDGET = {
 REQUIRED = dict(monitors=['deck-opaque-at-or-below-top', 'deck-zero-above', 'deck-depth-equals-opaque-integral',
                           'deck-depth>=clear', 'haze-zero-outside-window', 'haze-declared-magnitude-inside',
                           'haze-partial-between', 'haze-depth>=clear', 'lee-wavelength-law'],
-                classes=['deck:inside', 'deck:above-range', 'deck:below-range', 'deck:on-layer-pressure',
+                classes=['retune:fault-before-evaluation', 'deck:inside', 'deck:above-range', 'deck:below-range', 'deck:on-layer-pressure',
                          'flat:set', 'flat:unset', 'flat:inverted', 'flat:outside', 'flat:below-1Pa',
                          'lee:set', 'lee:unset', 'lee:inverted', 'lee:outside', 'nlayers:2', 'retune:deck',
                          'retune:flat', 'retune:lee', 'retune:evaluation-after-write', 'retune:pressure-range-written'])
@@ -362,6 +363,12 @@ def wl_retune(ctx, rng):
                     model['lee_mie_q'] = q
                     model['lee_mie_mix_ratio'] = mix
                 cls = window_class(bottom, top, lev)
+        if r != 0 and rng.random() < 0.3:
+            site = faults.drive_into(ctx, rng, model.model)      # a rejected evaluation between write and evaluation
+            if site == 'rejected':
+                return
+            if site:
+                ctx.observe('retune:fault-before-evaluation')
         snap = base.run_model(ctx, model, build=(r == 0))
         if snap is None:
             return
